@@ -1123,6 +1123,11 @@ impl<'a> Exec<'a> {
                     Some(Meta::ClientLogin { pw_start, req_canon }) if sizes_ok => {
                         self.predict_client(pw_start, &pw.0, req_canon, &rs, ctx, ids, ksf)
                     }
+                    // an unencodable parameter can never be part of an accepted login
+                    Some(Meta::ClientLogin { .. }) => (
+                        Predict::Reject { invalid_login: false, why: "a parameter is longer than 65535 bytes" },
+                        None,
+                    ),
                     _ => (Predict::Any, None),
                 };
                 self.secrets.push(("password", pw.0.clone()));
